@@ -14,7 +14,7 @@
 From Coq Require Import QArith Qabs Qround Permutation Sorted.
 From CKT Require Import Common.Base Extracted.Facts Model.Weights.
 From CKT Require Import Proofs.WeightsP Proofs.WeightsDfs Proofs.WeightsGen Proofs.WeightsTab.
-From CKT Require Import Proofs.WeightsSum Proofs.WeightsCount Proofs.WeightsUnb Proofs.WeightsMachine Proofs.WeightsRef Proofs.WeightsSort Proofs.WeightsTotal Proofs.WeightsBridge Proofs.WeightsNDraw Proofs.WeightsPublic.
+From CKT Require Import Proofs.WeightsSum Proofs.WeightsCount Proofs.WeightsUnb Proofs.WeightsMachine Proofs.WeightsRef Proofs.WeightsSort Proofs.WeightsTotal Proofs.WeightsBridge Proofs.WeightsNDraw Proofs.WeightsPublic Proofs.WeightsFinal.
 Open Scope Q_scope.
 
 (* valid probs: every vector is non-negative and sums to 1 (WeightsGen.valid) *)
@@ -66,20 +66,45 @@ Theorem c04_count_sum : forall probs perms q tape r,
      wsum r == q /\ (Z.of_nat (length r) <= Qceiling q)%Z).
 Proof. exact count_sum. Qed.
 
+(* At most ceil(N) entries for EVERY valid input, whatever lies below the cut-off: sub-1e-14 entries, zeroed table entries
+   and the repaired F9 branch included.  The only excluded inputs are those with an entry bit-equal to 1e-14
+   (observation O2, where the clause is false for the code). *)
+Theorem c04_count_general : forall probs perms q tape r,
+  valid probs -> sorting_perms_b probs perms = true -> no_entry_at_cutoff probs ->
+  gen_weights probs perms (Fin q) tape = Some (Ok r) -> (Z.of_nat (length r) <= Qceiling q)%Z.
+Proof. exact count_general. Qed.
+
+(* Outside the all-exact branch the deficit N - sum is at most N * atol * (number of ENTRIES OF THE TABLES ACTUALLY POPPED
+   by the DFS), instead of the full-tree factor of c04_count_sum. *)
+Theorem c04_sum_deficit_visited : forall probs perms q tape r mins,
+  valid probs -> sorting_perms_b probs perms = true ->
+  gen_weights probs perms (Fin q) tape = Some (Ok r) ->
+  all_some (map min_filter_nonzero probs) = Some mins -> ~ 1 / q <= qprod mins ->
+  q - wsum r <= q * (nonzero_atol * nq (tabsize (raw_tables (sorted_probs probs perms) (1 / q)))).
+Proof. exact sum_deficit_visited. Qed.
+
+(* every reported weight is strictly positive (finite or infinite budget; exact, leftover and sampled entries) *)
+Theorem c04_weights_positive : forall probs perms N tape r,
+  sorting_perms_b probs perms = true -> gen_weights probs perms N tape = Some (Ok r) ->
+  forall e, In e r -> 0 < fst (snd e).
+Proof. exact weights_positive. Qed.
+
 (* Unbiasedness.  expected_weight = the weight of an entry that is returned without sampling, or
    single_sample_weight * E[count] where E[count] follows _populate_samples using only O-choice
    (E[count_i of n draws from p] = n p_i, calls independent).
    For EVERY joint map -- exact ones trivially, the single-leftover shortcut by the walk lemma, all others by the
    telescoping product of the renormalised conditional tables -- the expected weight is N * p, under
    no_entry_in_cutoff (precisely: every input entry is 0 or > atol, and no raw conditional-table entry of the DFS run in
-   sorted coordinates with threshold 1/N lies in (0, atol]) and N <= 1e14. *)
-Theorem c04_unbiased : forall probs perms q ids c,
-  valid probs -> sorting_perms_b probs perms = true -> nonzero_atol * q <= 1 ->
+   sorted coordinates with threshold 1/N lies in (0, atol]) and N <= 1e14.  The success of the call is NOT assumed: for such
+   inputs gen_core answers Ok (Proofs/WeightsFinal.gen_core_ok), so expected_weight's default 0 for Refused/Crashed is never used.
+   When a table entry IS zeroed by the cut-off, no bias bound is proved (only the aggregate deficit of c04_count_sum /
+   c04_sum_deficit_visited); that regime is covered by the correspondence (judge_law) only. *)
+Theorem c04_unbiased : forall probs perms q ids,
+  valid probs -> sorting_perms_b probs perms = true -> 1 <= q -> nonzero_atol * q <= 1 ->
   no_entry_in_cutoff probs perms (1 / q) ->
-  gen_core probs perms (Fin q) = Ok c ->
   in_range probs ids ->
   expected_weight probs perms (Fin q) ids == q * jointp probs ids.
-Proof. exact unbiased. Qed.
+Proof. exact unbiased_q. Qed.
 
 (* The step machine (line-by-line `while True` loop of
    _generate_exact_weights_and_conditional_probabilities_assume_sorted, run with fuel) produces the SEQUENCE of yields of
@@ -125,18 +150,31 @@ Theorem c04_n_draw_bridge : forall M cond D,
       expect M cond rest rs nd (fun s => nq (cntk key_eqb (rs ++ ids) s)) == nq nd * ecount rest cond rs 1 ids.
 Proof. exact n_draw. Qed.
 
-(* Unbiasedness of the REAL sampling loop, from O-choice alone: when _generate_qpd_weights samples (core = CSample), the
-   expectation over all oracle tapes of the weight  count * single_sample_weight  that a not-exactly-evaluated joint map
-   receives is N * p; and the tape law is a probability law.  (c04_unbiased is the same statement about the functional
-   ecount; this theorem removes the functional.) *)
+(* The tape law, WITHOUT any cut-off hypothesis: whenever _generate_qpd_weights samples (core = CSample), the weighting of
+   the oracle tapes is a probability law (total mass 1); every tape on which the sampler runs yields the dictionary
+   final_dict ret ssw s (retval with the samples inserted, never an assert); and an admissible tape EXISTS, so the
+   premise `gen_weights ... = Some (Ok r)` of the other theorems is satisfiable for every valid input that samples. *)
+Theorem c04_tape_law : forall probs perms q ret cond nd ssw,
+  valid probs -> sorting_perms_b probs perms = true ->
+  gen_core probs perms (Fin q) = Ok (CSample ret cond nd ssw) ->
+  expect (maxlen probs) cond probs [] nd (fun _ => 1) == 1 /\
+  (forall tape s t lg, populate probs cond [] nd tape = Some (s, t, lg) ->
+      gen_weights probs perms (Fin q) tape = Some (Ok (final_dict ret ssw s)) /\
+      insert_samples ret ssw s = Some (final_dict ret ssw s)) /\
+  exists tape r, gen_weights probs perms (Fin q) tape = Some (Ok r).
+Proof. exact tape_law. Qed.
+
+(* Unbiasedness of the REAL sampling loop on the RETURNED dictionary, from O-choice alone: the expectation over all oracle
+   tapes of the weight that the dictionary returned by _generate_qpd_weights (c04_tape_law: final_dict ret ssw s) gives to a
+   joint map that was not evaluated exactly is N * p.  (weight_of d k = the weight of k in d, 0 when absent; pathwise it is
+   count * single_sample_weight, Proofs/WeightsFinal.final_dict_weight.) *)
 Theorem c04_sampler_unbiased : forall probs perms q ret cond nd ssw ids,
   valid probs -> sorting_perms_b probs perms = true -> nonzero_atol * q <= 1 ->
   no_entry_in_cutoff probs perms (1 / q) ->
   gen_core probs perms (Fin q) = Ok (CSample ret cond nd ssw) ->
   in_range probs ids -> dget ret ids = None ->
-  expect (maxlen probs) cond probs [] nd (fun _ => 1) == 1 /\
-  expect (maxlen probs) cond probs [] nd (fun s => ssw * nq (cntk key_eqb ids s)) == q * jointp probs ids.
-Proof. exact sampler_unbiased. Qed.
+  expect (maxlen probs) cond probs [] nd (fun s => weight_of (final_dict ret ssw s) ids) == q * jointp probs ids.
+Proof. exact sampler_unbiased_final. Qed.
 
 (* one draw, pathwise: the answers ARE the returned key (count 1), one call per level, likelihood = ecount *)
 Theorem c04_one_draw_bridge : forall probs cond tape s t lg,
@@ -163,6 +201,27 @@ Theorem c04_public_wrapper : forall bases perms N tape r,
     Permutation r r0 /\ StronglySorted sle r /\ NoDup (map fst r0) /\
     (forall k, dget r k = dget r0 k) /\ wsum r == wsum r0 /\ length r = length r0.
 Proof. exact public_wrapper. Qed.
+
+(* every clause of the property through the PUBLIC function, composed *)
+Theorem c04_public_all : forall bases perms q tape r,
+  Forall (fun c => ~ qsum (map Qabs c) == 0) bases ->
+  let probs := map basis_probs bases in
+  sorting_perms_b probs perms = true ->
+  generate_qpd_weights bases perms (Fin q) tape = Some (Ok r) ->
+  (nonzero_atol * q <= 1 -> forall ids, in_range probs ids -> 1 / q <= jointp probs ids ->
+      exists w, dget r ids = Some (w, EXACT) /\ w == q * jointp probs ids) /\
+  (forall k w t, dget r k = Some (w, t) -> 0 < jointp probs k /\ in_range probs k /\ 0 < w) /\
+  (no_entry_at_cutoff probs -> (Z.of_nat (length r) <= Qceiling q)%Z) /\
+  wsum r <= q /\ q - wsum r <= q * (nonzero_atol * nq (S (tree_size probs))) /\
+  (no_entry_in_cutoff probs perms (1 / q) -> nonzero_atol * q <= 1 -> wsum r == q) /\
+  StronglySorted sle r /\ NoDup (map fst r).
+Proof. exact public_all. Qed.
+
+Theorem c04_public_total : forall bases perms N tape res,
+  Forall (fun c => ~ qsum (map Qabs c) == 0) bases ->
+  sorting_perms_b (map basis_probs bases) perms = true ->
+  generate_qpd_weights bases perms N tape = Some res -> res <> Crashed.
+Proof. exact public_total. Qed.
 
 Theorem c04_public_refuses : forall bases perms tape N,
   (N = NaN \/ N = NInf \/ exists q, N = Fin q /\ q < 1) -> generate_qpd_weights bases perms N tape = Some Refused.
@@ -248,6 +307,39 @@ Example c04_ex_public :
   Forall (fun c => ~ qsum (map Qabs c) == 0) [[-1; 1 # 2; 1 # 2]; [1; -3]].
 Proof. split; [vm_compute; reflexivity|repeat constructor; discriminate]. Qed.
 
+(* one draw with tables at both levels: probs = [[3/4,1/4],[3/4,1/4]], N = 2: the core samples once (nd = 1), the tape [0;1]
+   is the returned key with count 1, the tape [0;0] (an exact map) is inadmissible *)
+Definition exOne : list (list Q) := [[3 # 4; 1 # 4]; [3 # 4; 1 # 4]].
+Example c04_ex_one_draw :
+  match gen_core exOne [[0; 1]; [0; 1]]%nat (Fin 2) with
+  | Ok (CSample ret cond nd ssw) =>
+      Nat.eqb nd 1 && Nat.eqb (length cond) 2 &&
+      forallb (fun kv => Nat.ltb (length (fst kv)) 2) cond &&
+      match populate exOne cond [] 1 [0; 1]%nat with
+      | Some (s, t, lg) => list_beq (pair_beq key_eqb Nat.eqb) s [([0; 1]%nat, 1%nat)] && Nat.eqb (length lg) 2 &&
+                           Qeq_bool (logprob lg [0; 1]%nat) (ecount exOne cond [] 1 [0; 1]%nat)
+      | None => false
+      end &&
+      match populate exOne cond [] 1 [0; 0]%nat with None => true | Some _ => false end
+  | _ => false
+  end = true.
+Proof. vm_compute. reflexivity. Qed.
+
+(* a fractional budget N = 7/2: ceil N = 4 entries, weights sum to 7/2 *)
+Example c04_ex_fractional :
+  exists r, gen_weights exP exPerms (Fin (7 # 2)) [1; 0; 1; 1; 0; 0]%nat = Some (Ok r) /\
+            length r = 4%nat /\ Qceiling (7 # 2) = 4%Z /\ wsum r == 7 # 2 /\
+            no_entry_in_cutoff_b exP exPerms (1 / (7 # 2)) = true.
+Proof. eexists. split; [vm_compute; reflexivity|]. repeat split; vm_compute; reflexivity. Qed.
+
+(* c04_count_general applies where c04_count_sum's hypothesis fails: the F9 input (entry 2^-46, zeroed tables) *)
+Example c04_ex_count_general :
+  no_entry_at_cutoff [[1 # 2; 1 # 2]; [70368744177663 # 70368744177664; 1 # 70368744177664]] /\
+  valid [[1 # 2; 1 # 2]; [70368744177663 # 70368744177664; 1 # 70368744177664]].
+Proof.
+  split; repeat constructor; try (intro H; vm_compute in H; discriminate); try discriminate; vm_compute; reflexivity.
+Qed.
+
 (* the machine on the running example (sorted coordinates): 3 yields, pops and a pruned sibling included *)
 Example c04_ex_machine :
   run_machine (fuel_bound (sorted_probs exP exPerms)) (sorted_probs exP exPerms) (1 # 4)
@@ -284,6 +376,12 @@ Print Assumptions c04_n_draw_bridge.
 Print Assumptions c04_sampler_unbiased.
 Print Assumptions c04_public_wrapper.
 Print Assumptions c04_public_refuses.
+Print Assumptions c04_count_general.
+Print Assumptions c04_sum_deficit_visited.
+Print Assumptions c04_weights_positive.
+Print Assumptions c04_tape_law.
+Print Assumptions c04_public_all.
+Print Assumptions c04_public_total.
 Print Assumptions c04_exact_complete.
 Print Assumptions c04_no_zero.
 Print Assumptions c04_infinite.
